@@ -100,6 +100,11 @@ RInfoVecs ==
   \o SeqMap(LAMBDA ps : Session(<< "ReadRouterInfo" >>, RInfoEnc("key", 7, 4, D8[3], 1, 0, ps, 4), << >>, "rinfo-opts"), OptSets)
   \o SeqMap(LAMBDA d : Session(<< "ReadRouterInfo" >>, RInfoEnc("key", 7, 4, d, 1, 0, OptSets[3], 5), << >>, "rinfo-date"), D8)
   \o << Session(<< "ReadRouterInfo" >>, RInfoEnc("key", 7, 4, D8[3], 1, 1, OptSets[3], 6), << >>, "rinfo-peers1") >>
+  \* peer_size 1..2 with 32-byte "peer hashes" really present (beginning 00 00, so that what follows the count still reads as an options mapping):
+  \* whatever the parser does with them, serialising the result gives back what it consumed
+  \o SeqMap(LAMBDA np : Session(<< "ReadRouterInfo" >>,
+                                EncIdentity("key", 7, 4, 9) \o D8[3] \o << 1 >> \o AddrEnc(3) \o << np >> \o Flatten([i \in 1..np |-> << 0, 0 >> \o Fill(30, 40 + i)])
+                                \o SerMapping(OptSets[4]) \o Fill(64, 17) \o Fill(70, 3), << >>, "rinfo-peerhashes"), << 1, 2 >>)
   \o [k \in 1..NRand |-> LET s == RInfoShape(200 + 11 * k) IN
         Session(<< "ReadRouterInfo" >>, RInfoEnc(s[1], s[2][1], s[2][2], s[3], s[4], 0, s[5], k), << >>, "rinfo-rnd")]
 
